@@ -40,7 +40,7 @@ EXTENDS Integers, Sequences, FiniteSets, SequencesExt, TLC
 (*            inside a comment and at its end is not part of the comparison)              *)
 (*       ln   per line <<number of nt entries, number of cm entries>> that START on it    *)
 (*       ld   per line an identity of its text (the text, or a digest of it)              *)
-(*   observed edit   [ls, le, cut, nf, nl, cf, cl, nt, cm, ld]                            *)
+(*   observed edit   [ls, le, cut, nf, nl, cf, cl, nt, cm, ld, ldx]                       *)
 (*       ls, le   first / last line (0-based) of the text the edit replaces               *)
 (*       cut      one of its ends lies inside a token                                      *)
 (*       nf, nl   the replaced text holds nt[nf..nl] of the document (cf, cl: cm[cf..cl]) *)
@@ -68,9 +68,11 @@ FirstDiff(s, t) ==
 \* RangeFormatByLineIndex: the new text of the edit is, line by line, the lines ls..le of the
 \* FORMATTED document counted by index, although wrapping gave the formatted document more
 \* lines than the source (ld = per line an identity of its text)
+\* (ldx: the same with the empty piece after a final line terminator counted as a line -
+\* the last of the lines taken may itself be an empty one)
 ByLineIndex(formatted, e) ==
   /\ e.le + 1 <= Len(formatted.ld)
-  /\ e.ld = SubSeq(formatted.ld, e.ls + 1, e.le + 1)
+  /\ SubSeq(formatted.ld, e.ls + 1, e.le + 1) \in {e.ld, e.ldx}
 
 (* ==================================================================================== *)
 (* 2. Lexical model (IEC 61131-3 Ed.3 6.1-6.3, tables 1-9): a text is a sequence of       *)
